@@ -13,6 +13,7 @@ package props
 // sub "walk": random walks on the example applications with generated stub results
 
 import (
+	"regexp"
 	"bytes"
 	"context"
 	"encoding/json"
@@ -138,7 +139,7 @@ func runC08(c C08Case) (v *Violation, f c08Features, discard string) {
 		if st.Exceeded {
 			return nil, f, "move-budget"
 		}
-		if st.Panic != "" && strings.HasPrefix(st.Panic, "down into same node") && !strings.Contains(st.Panic, "'_first'") {
+		if st.Panic != "" && strings.HasPrefix(st.Panic, "down into same node") && !strings.Contains(st.Panic, "'_first'") && appMovesTo(c.App, selfMoveTarget(st.Panic)) {
 			// the documented precondition "no node moves to itself", violated dynamically:
 			// pending code of one node executed a move to the node that is current. The
 			// generator avoids the static shapes; what remains is outside the domain.
@@ -555,4 +556,31 @@ func TestC08(t *testing.T) {
 		c.Mode = []app.Mode{{Kind: "long"}, {Kind: "persist", Backend: "mem"}, {Kind: "persist", Backend: "fs"}}[uniformN(t, 3, "mode")]
 		return c
 	}, checkC08Ex)
+}
+
+var reSelfMove = regexp.MustCompile(`-> '([^']*)'`)
+
+// selfMoveTarget: the node named by the state package's "down into same node" panic.
+func selfMoveTarget(msg string) string {
+	if m := reSelfMove.FindStringSubmatch(msg); m != nil {
+		return m[1]
+	}
+	return ""
+}
+
+// appMovesTo: some instruction of the application moves to that node by name (only then can
+// the application's own code have moved a node to itself; a move the engine queues is the
+// library's business).
+func appMovesTo(a *app.App, target string) bool {
+	if target == "" {
+		return true
+	}
+	for i := range a.Nodes {
+		for _, in := range a.Nodes[i].Code {
+			if (in.Op == refdec.MOVE || in.Op == refdec.INCMP || in.Op == refdec.CATCH) && string(in.Sym) == target {
+				return true
+			}
+		}
+	}
+	return false
 }
